@@ -1,7 +1,7 @@
 #!/usr/bin/env python3
 """Apply every seeded change in turn to /repo, run the owning property's quick check, revert.  Writes seeded/RESULTS.json."""
 import json, os, subprocess, sys
-out = {}
+out = json.load(open("/verif/seeded/RESULTS.json")) if len(sys.argv) > 1 and os.path.exists("/verif/seeded/RESULTS.json") else {}
 names = sorted(d for d in os.listdir("/verif/seeded") if os.path.isdir("/verif/seeded/" + d))
 if len(sys.argv) > 1:
     names = [n for n in names if any(a in n for a in sys.argv[1:])]
@@ -9,7 +9,10 @@ assert subprocess.run(["git", "-C", "/repo", "status", "--porcelain"], capture_o
 for n in names:
     meta = json.load(open("/verif/seeded/%s/meta.json" % n))
     prop = meta["breaks_property"]
-    subprocess.run(["git", "-C", "/repo", "apply", "/verif/seeded/%s/patch.diff" % n], check=True)
+    if subprocess.run(["git", "-C", "/repo", "apply", "/verif/seeded/%s/patch.diff" % n]).returncode:
+        out[n] = {"property": prop, "exit": None, "violations": 0, "error": "patch does not apply"}
+        print("%-50s %s PATCH DOES NOT APPLY" % (n, prop), flush=True)
+        continue
     try:
         c = subprocess.run(["./check", prop, "--tier", "quick"], cwd="/verif", capture_output=True, text=True, timeout=1800)
         viol = sum(1 for l in c.stdout.split("\n") if l.startswith("VIOLATION"))
